@@ -110,6 +110,13 @@ func main() {
 	for _, m := range []map[int]*int{nil, {}, {1: nil}, {1: new(int)}} {
 		try(func() { r := a.MapElem(m); record("a.MapElem", 0, r == nil, false, r) })
 	}
+	for _, p := range []*int{nil, new(int)} {
+		try(func() { r := a.DerefThenReturn(p); record("a.DerefThenReturn", 0, r == nil, false, r) })
+		try(func() { r := a.StoreThenReturn(p); record("a.StoreThenReturn", 0, r == nil, false, r) })
+	}
+	for _, t := range []*struct{ X int }{nil, {}} {
+		try(func() { r := a.FieldThenReturn(t); record("a.FieldThenReturn", 0, r == nil, false, r) })
+	}
 	for key, o := range table {
 		fmt.Println(key, o.returned, o.outerNil, o.outerNon, o.innerNil, o.innerNon)
 	}
